@@ -24,7 +24,7 @@ ASSUMPTIONS = ["a forged datagram that carries the right token AND the right sou
                "one over UDP and is not generated",
                "liveness is judged at quiescence only: a request may stay pending iff no matching response and no error "
                "indication was delivered to the endpoint"]
-EXPECTED_PROBES = ["forged_random_token", "forged_wrong_ip", "forged_wrong_port", "late_copy", "rst_for_unmatched_con",
+EXPECTED_PROBES = ["forged_near_token", "forged_random_token", "forged_wrong_ip", "forged_wrong_port", "late_copy", "rst_for_unmatched_con",
                    "matched", "failed_by_icmp", "failed_by_giveup", "failed_by_rst", "resolution_failure", "pending_at_quiescence",
                    "dup_response_delivered", "multicast_request_outstanding", "response_before_exchange_end", "peer_request_under_own_token", "partition", "liveness_probe_after_heal"]
 
@@ -63,7 +63,7 @@ def gen(r, tier):
     if r.chance(0.7):
         for _ in range(r.randint(1, 10)):
             ops.append({"op": "forge", "t": round(r.uniform(0, t + 3), 4), "target": r.randrange(nreq),
-                        "kind": r.choice(["random_token", "wrong_ip", "wrong_port", "late_copy", "late_copy"]),
+                        "kind": r.choice(["random_token", "wrong_ip", "wrong_port", "late_copy", "late_copy", "near_token"]),
                         "mtype": r.choice(["CON", "NON", "ACK"]), "late": round(r.uniform(0.0, 5.0), 3)})
     if r.chance(0.2):
         ops.append({"op": "icmp", "t": round(r.uniform(0, t + 2), 4), "srv": r.randrange(0, 1 + nscripted),
@@ -409,6 +409,19 @@ def execute(sim, scn):
             sim.net.inject(rc.encode(m), g["src"], me, forged=True, fate=["deliver", op["late"]])
             return
         if e is None and kind != "random_token":
+            return
+        if kind == "near_token":
+            # from the right address, with a token that is almost the outstanding one: zero bytes in front of or behind
+            # it, a byte missing (tokens are byte strings, not numbers: these are all different tokens)
+            real = e["msg"]["token"]
+            token = [b"\0" + real, b"\0\0\0" + real, real + b"\0", real[1:], real[:-1]][i % 5]
+            src = e["dst"]
+            if token == real or len(token) > 15:
+                return
+            sim.probe("forged_near_token")
+            raw = bytes([(1 << 6) | (typ << 4) | len(token), rc.CONTENT]) + mid.to_bytes(2, "big") + token + b"\xff" + FORGED + b":%d" % i
+            nforged[0] += 1
+            sim.net.inject(raw, src, me, forged=True, fate=["deliver", 0.005])
             return
         if kind == "random_token":
             token = bytes([0xF0, i & 0xFF, 0x55])
